@@ -34,7 +34,7 @@ func (g *G) KeyArg() *gen.Node {
 	}
 }
 
-var grokPatterns = []string{"%{INT:n}", "%{WORD:w} %{INT:num:int}", "%{NUMBER:f:float}", "%{GREEDYDATA:rest}", "%{IP:ip}", "(?P<x>a+)b", "%{DATA:d:bool}", "%{NOTSPACE:s:str} %{NOTSPACE}"}
+var grokPatterns = []string{"%{INT:n}", "%{WORD:w} %{INT:num:int}", "%{NUMBER:f:float}", "%{GREEDYDATA:rest}", "%{IP:ip}", "(?P<x>a+)b", "%{DATA:d:bool}", "%{NOTSPACE:s:str} %{NOTSPACE}", "(?:%{INT:code:int} )?%{WORD:w}", "%{WORD:verb} (?:%{NUMBER:bytes:float}|-)", "%{WORD:a}(?: %{WORD:b})?"}
 var formats = []string{"%v", "%d-%s", "%s", "%5.2f", "%%", "%v %v %v", "%d", "%q", "%x", "plain", "%!", "%[3]v"}
 
 // BuiltinCall draws a call to one of the builtins in an argument shape its checker accepts.
@@ -159,6 +159,7 @@ func (g *G) ValuelessExpr() *gen.Node {
 var ZoneArgs = []string{"+8", "-3:30", "Asia/Shanghai", "UTC", "CST", "+99", "Nowhere/City", "",
 	"+", "-", "+0", "-0", "+00", "+08", "-08:00", "+8:", "+:30", "+8:00", "+5:45", "+12:45", "+14", "-11", "-12", "+15", "+9", "-9:30",
 	"utc", "Utc", "asia/shanghai", "ASIA/TOKYO", "Asia/Tokyo", "asia/tokyo", "Local", "local", "Z", "GMT", "EST", "cst", "Europe/London", "europe/london",
+	"Etc/GMT-8", "Etc/GMT+5", "GMT+0", "GMT-0", "America/Port-au-Prince", "America/Blanc-Sablon", "Asia/Ust-Nera", "Etc/GMT-14", "Etc/GMT+12", "EST5EDT", "Nowhere/Hyphen-City", "UTC+8", "W-SU",
 	" +8", "+8 ", "+\u0668", "\x00", "../UTC", "Asia/Shanghai/", "/", ".", ":", "+-8", "America/Argentina/Buenos_Aires",
 	"Asia/ShanghaiAsia/ShanghaiAsia/ShanghaiAsia/ShanghaiAsia/ShanghaiAsia/ShanghaiAsia/ShanghaiAsia/ShanghaiAsia/ShanghaiAsia/ShanghaiAsia/ShanghaiAsia/ShanghaiAsia/ShanghaiAsia/ShanghaiAsia/ShanghaiAsia/ShanghaiAsia/ShanghaiAsia/ShanghaiAsia/Shanghai"}
 
